@@ -299,6 +299,26 @@ class Sig(Base):
         self.ledger.append(("dev", self.name, "put-done", value, None))
 
 
+class CfgSig(Sig):
+    """A signal that can be configured (its configuration is a counter)."""
+
+    def __init__(self, *a, **k):
+        super().__init__(*a, **k)
+        self.cfg = 0
+
+    def read_configuration(self):
+        return {self.name + "_cfg": {"value": self.cfg, "timestamp": 3.0}}
+
+    def describe_configuration(self):
+        return {self.name + "_cfg": {"source": "fake:cfg", "dtype": "integer", "shape": []}}
+
+    def configure(self, *args, **kwargs):
+        self._rec("configure", args)
+        old = self.read_configuration()
+        self.cfg += 1
+        return old, self.read_configuration()
+
+
 class Flyer(Base):
     """Flyable + EventCollectable (doubly nested describe_collect)."""
 
